@@ -485,7 +485,20 @@ def gen_cases(tier, seed):
 def run_case(case):
     t = case['type']
     if t == 'seq':
-        viol, stats, distinct = explore_sliding(case['count'], case['ntags'], case['depth'], case.get('int_tags', False))
+        # every operation of these sequences is non-blocking by construction: if the exploring thread ever comes to rest inside the
+        # semaphore (e.g. on a lock a rejected operation forgot to give back) that is a violation, not a time-out
+        ob = watchdog.Obligation(lambda: explore_sliding(case['count'], case['ntags'], case['depth'], case.get('int_tags', False)), name='seq-explore').start()
+        r = watchdog.await_or_deadlock(ob.done.is_set, None, None, wall_timeout=CASE_TIMEOUT - 30, checks=5, check_gap=0.1)
+        if r == 'deadlock':
+            st = e2e.lib_frames(watchdog.all_stacks())
+            return {'verdict': 'violated', 'key': None, 'fatal': True, 'stats': {}, 'summary': {'stacks': st},
+                    'violations': [V(f'SlidingWindowSemaphore({case["count"]}): a non-blocking operation of a single-threaded sequence never returned - the '
+                                     f'thread is at rest inside the semaphore: {st}', cls='SlidingWindowSemaphore', sym='operation-blocks')]}
+        if r != 'done':
+            return {'verdict': 'inconclusive', 'key': None, 'fatal': True, 'stats': {}, 'summary': {'await': r}, 'violations': []}
+        if ob.exc is not None:
+            raise ob.exc
+        viol, stats, distinct = ob.result
         return {'verdict': 'violated' if viol else 'held', 'key': f'seq-{case["count"]}-{case["ntags"]}-{case["depth"]}-{bool(case.get("int_tags"))}',
                 'violations': viol, 'stats': dict(stats, seq_distinct_state_ops=distinct),
                 'summary': {'states': stats['states'], 'ops': stats['ops']}}
